@@ -271,7 +271,10 @@ def main(tier="quick"):
                         cases.append(Case(pid, backend, text, md, {"source": "grammar"}))
                         pid += 1
         for q in extra_shapes(backend):
-            cases.append(Case(pid, backend, q, md, {"source": "shape"}))
+            # a shape that declares a method itself is not ALSO given the harness's default declaration of that method
+            own = set(re.findall(r"'method_name': '(\w+)'", q))
+            mdq = tuple(m for m in md if m.get("method_name") not in own) if own else md
+            cases.append(Case(pid, backend, q, mdq, {"source": "shape"}))
             pid += 1
         from mc.lang import argscope
         for ctx, q in argscope.queries(backend):
